@@ -98,7 +98,8 @@ type CallPlan struct {
 	HProg         []HOp
 	HErr          *ErrPlan // returned at the end of HProg (nil: success)
 	HPanic        *PanicPlan
-	KeepReceiving bool     // bidi handler: keep calling Receive after a non-EOF error
+	KeepReceiving bool // bidi handler: keep calling Receive after a non-EOF error
+	panicAfterCtx bool
 	ReturnSendErr bool     // the handler returns the error of a failed Send (as handlers do)
 	RecoverErr    *ErrPlan // what the WithRecover function returns
 
